@@ -13,7 +13,7 @@ use crate::{
     parsers::{parse_prometheus, prom_families, PromFamily},
 };
 
-const RULE: &str = "a case = builder configuration (unit suffix on/off, summary mode or global buckets, 0-2 global labels) and 1-6 metrics of any kind whose name, label keys, label values and description are arbitrary Unicode strings built from letters, digits, controls, non-ASCII and a dictionary of hostile fragments (quotes, backslash runs, newlines, CR, forged '# TYPE' / sample lines, braces, commas, '=', '#', ':' , leading digits); every Unit value. Names and label keys get a distinct trailing index character so that the distinctness precondition of C07/C08 holds by construction (an own label may deliberately reuse a global label's exact name). Non-trivial = some user string contains a quote, backslash or newline, or the unit suffix is on with a unit other than Count. Distinct = distinct decoded cases.";
+const RULE: &str = "a case = builder configuration (unit suffix on/off, summary mode or global buckets, 0-2 global labels) and 1-6 metrics of any kind (several of which may be series of one family) whose name, label keys, label values and description are arbitrary Unicode strings built from letters, digits, controls, non-ASCII and a dictionary of hostile fragments (quotes, backslash runs, newlines, CR, forged '# TYPE' / sample lines, braces, commas, '=', '#', ':' , leading digits); every Unit value. Names and label keys get a distinct trailing index character so that the distinctness precondition of C07/C08 holds by construction (an own label may deliberately reuse a global label's exact name). Non-trivial = some user string contains a quote, backslash or newline, or the unit suffix is on with a unit other than Count. Distinct = distinct decoded cases.";
 
 static META: Metadata<'static> = Metadata::new("c08", Level::INFO, None);
 
@@ -94,6 +94,18 @@ pub fn decode(src: &mut Source) -> Case {
             MetricSpec { kind, name, labels, desc, nsamples: 1 + src.below(3) }
         })
         .collect();
+    // several series in one family: a metric may take the name and kind of an earlier one; a label with
+    // a distinct, harmless value keeps the label sets apart
+    let mut metrics: Vec<MetricSpec> = metrics;
+    for i in 1..metrics.len() {
+        if src.chance(70) {
+            let j = src.below(i);
+            metrics[i].kind = metrics[j].kind;
+            metrics[i].name = metrics[j].name.clone();
+            metrics[i].labels.retain(|(k, _)| k != "sidkz");
+            metrics[i].labels.push(("sidkz".to_string(), format!("s{}", i)));
+        }
+    }
     Case { unit_suffix, buckets, globals, metrics }
 }
 
@@ -126,11 +138,8 @@ pub fn expected_label_count(case: &Case, m: &MetricSpec) -> usize {
 pub fn structural_oracle(case: &Case, text: &str) -> Result<Vec<PromFamily>, Fail> {
     let lines = parse_prometheus(text).map_err(|e| Fail::new("exposition-not-well-formed", format!("{} ; output {:?}", e, text)))?;
     let fams = prom_families(&lines).map_err(|e| Fail::new("family-structure-violated", format!("{} ; output {:?}", e, text)))?;
-    ensure!(fams.len() == case.metrics.len(), "family-count-mismatch", "{} metrics registered but {} families rendered (a forged or merged family?) ; output {:?}", case.metrics.len(), fams.len(), text);
-    // per kind the multiset of (type, samples-per-series, labels-per-sample) must match
-    let quantiles = 4usize; // default quantile set: 0, 0.5, 0.9, 0.95, 0.99, 0.999, 1.0 -> read from output instead
-    let _ = quantiles;
-    let mut expected: Vec<(String, usize)> = vec![]; // (type, label count)
+    // expected: one family per distinct metric name, holding one series per metric of that name
+    let mut by_name: Vec<(&str, String, Vec<usize>)> = vec![]; // (name, type, label counts of its series)
     for m in &case.metrics {
         let t = match m.kind {
             'c' => "counter",
@@ -143,33 +152,52 @@ pub fn structural_oracle(case: &Case, text: &str) -> Result<Vec<PromFamily>, Fai
                 }
             }
         };
-        expected.push((t.to_string(), expected_label_count(case, m)));
+        match by_name.iter_mut().find(|(n, _, _)| *n == m.name.as_str()) {
+            Some(e) => e.2.push(expected_label_count(case, m)),
+            None => by_name.push((m.name.as_str(), t.to_string(), vec![expected_label_count(case, m)])),
+        }
     }
-    let mut got: Vec<(String, usize)> = vec![];
+    ensure!(fams.len() == by_name.len(), "family-count-mismatch", "{} distinct metric names registered but {} families rendered (a forged or merged family?) ; output {:?}", by_name.len(), fams.len(), text);
+    let mut expected: Vec<(String, Vec<usize>)> = by_name.into_iter().map(|(_, t, mut c)| {
+        c.sort();
+        (t, c)
+    }).collect();
+    let mut got: Vec<(String, Vec<usize>)> = vec![];
     for f in &fams {
         ensure!(!f.samples.is_empty(), "family-without-samples", "family {:?} has no samples", f.name);
-        // label count of the plain series (without le/quantile)
-        let base_counts: Vec<usize> = f
-            .samples
-            .iter()
-            .map(|(_, labels, _, _)| labels.iter().filter(|(k, _)| !((f.mtype == "histogram" && k == "le") || (f.mtype == "summary" && k == "quantile"))).count())
-            .collect();
-        let first = base_counts[0];
-        ensure!(base_counts.iter().all(|c| *c == first), "label-count-varies-within-series", "family {:?}: samples of one series carry different numbers of labels {:?} (a forged label?) ; output {:?}", f.name, base_counts, text);
-        let per_series = match f.mtype.as_str() {
-            "counter" | "gauge" => 1,
-            "histogram" => case.buckets.as_ref().map(|b| b.len()).unwrap_or(0) + 1 + 2,
-            _ => f.samples.iter().filter(|(n, _, _, _)| *n == f.name).count() + 2,
-        };
-        ensure!(f.samples.len() == per_series, "sample-count-mismatch", "family {:?} of type {} has {} samples, expected {} for its single series ; output {:?}", f.name, f.mtype, f.samples.len(), per_series, text);
-        if f.mtype == "histogram" {
-            ensure!(f.samples.iter().filter(|(n, l, _, _)| n.ends_with("_bucket") && l.iter().any(|(k, _)| k == "le")).count() == per_series - 2, "bucket-lines-malformed", "family {:?}: bucket samples lack an le label ; output {:?}", f.name, text);
+        // group the samples into series by their label set without le / quantile
+        let mut groups: Vec<(Vec<(String, String)>, usize, usize)> = vec![]; // (labels, samples, quantile lines)
+        for (n, labels, _, _) in &f.samples {
+            let mut base: Vec<(String, String)> = labels.iter().filter(|(k, _)| !((f.mtype == "histogram" && k == "le") || (f.mtype == "summary" && k == "quantile"))).cloned().collect();
+            base.sort();
+            let q = (f.mtype == "summary" && *n == f.name) as usize;
+            match groups.iter_mut().find(|g| g.0 == base) {
+                Some(g) => {
+                    g.1 += 1;
+                    g.2 += q;
+                }
+                None => groups.push((base, 1, q)),
+            }
         }
-        got.push((f.mtype.clone(), first));
+        for (labels, n, q) in &groups {
+            let per_series = match f.mtype.as_str() {
+                "counter" | "gauge" => 1,
+                "histogram" => case.buckets.as_ref().map(|b| b.len()).unwrap_or(0) + 1 + 2,
+                _ => q + 2,
+            };
+            ensure!(*n == per_series, "sample-count-mismatch", "family {:?} of type {}: the series with labels {:?} has {} samples, expected {} (a forged sample or label?) ; output {:?}", f.name, f.mtype, labels.iter().map(|l| &l.0).collect::<Vec<_>>(), n, per_series, text);
+        }
+        if f.mtype == "histogram" {
+            let buckets = f.samples.iter().filter(|(n, l, _, _)| n.ends_with("_bucket") && l.iter().any(|(k, _)| k == "le")).count();
+            ensure!(buckets == groups.len() * (case.buckets.as_ref().map(|b| b.len()).unwrap_or(0) + 1), "bucket-lines-malformed", "family {:?}: {} bucket samples with an le label for {} series ; output {:?}", f.name, buckets, groups.len(), text);
+        }
+        let mut counts: Vec<usize> = groups.iter().map(|g| g.0.len()).collect();
+        counts.sort();
+        got.push((f.mtype.clone(), counts));
     }
     expected.sort();
     got.sort();
-    ensure!(expected == got, "types-or-label-counts-mismatch", "expected (type, labels per sample) {:?} but rendered {:?} ; output {:?}", expected, got, text);
+    ensure!(expected == got, "types-or-label-counts-mismatch", "expected per family (type, labels per series) {:?} but rendered {:?} ; output {:?}", expected, got, text);
     Ok(fams)
 }
 
@@ -207,7 +235,7 @@ pub fn case_render(bytes: &[u8], _s: &[u8], ctx: &mut Ctx) -> Result<(), Fail> {
     let text = handle.render();
     let fams = structural_oracle(&case, &text)?;
     // HELP text round-trips for described families (escapes complete)
-    let described = case.metrics.iter().filter(|m| m.desc.is_some()).count();
+    let described = case.metrics.iter().filter(|m| m.desc.is_some()).map(|m| m.name.as_str()).collect::<std::collections::BTreeSet<_>>().len();
     let with_help = fams.iter().filter(|f| f.help.is_some()).count();
     ensure!(described == with_help, "help-line-count-mismatch", "{} metrics described but {} HELP lines ; output {:?}", described, with_help, text);
     // a second render is structurally the same
